@@ -485,3 +485,21 @@ Proof.
       unfold expired in X. apply Z.ltb_lt in X. lia.
   - apply fold_remove_cap.
 Qed.
+
+(* Cleanup absorbs an earlier cleanup: running Cleanup at an instant and again at the same or a later instant
+   leaves exactly the lookups a single Cleanup at the later instant leaves (so Cleanup is idempotent). *)
+Lemma cleanup_absorbs now now' c : wf c -> now <= now' ->
+  forall k, lookup k (items (cleanup now' (cleanup now c))) = lookup k (items (cleanup now' c)).
+Proof.
+  intros Hwf Hle k.
+  destruct (cleanup_exact now' (cleanup now c) (wf_cleanup now c Hwf)) as [H1 _].
+  destruct (cleanup_exact now' c Hwf) as [H2 _].
+  destruct (cleanup_exact now c Hwf) as [H3 _].
+  rewrite H1, H2, H3.
+  destruct (lookup k (items c)) as [e|]; [|reflexivity].
+  destruct (Z.ltb_spec (e_exp e) now) as [Ha|Ha]; [|reflexivity].
+  destruct (Z.ltb_spec (e_exp e) now') as [Hb|Hb]; [reflexivity|lia].
+Qed.
+Lemma cleanup_idempotent_lookup now c : wf c ->
+  forall k, lookup k (items (cleanup now (cleanup now c))) = lookup k (items (cleanup now c)).
+Proof. intros Hwf k. rewrite (cleanup_absorbs now now c Hwf (Z.le_refl now) k). reflexivity. Qed.
